@@ -67,7 +67,7 @@ def main():
             print(out0[-500:], out1[-500:], out2[-800:])
         os.remove(os.path.join(wt, "_seed_demo.py"))
         for c in checks:
-            env = dict(os.environ, VERIF_REPO=wt, VERIF_EVIDENCE_DIR="/tmp/sv_evidence")
+            env = dict(os.environ, VERIF_REPO=wt, VERIF_EVIDENCE_DIR="/tmp/sv_evidence_%s" % a.seed_id)
             t0 = time.time()
             rc, out = sh(["./check", c, "--tier", a.tier], cwd=VERIF, env=env, timeout=7200)
             lines = [l for l in out.splitlines() if l.startswith(("VIOLATION", "  key=", "  violation classes", "MACHINERY", c + " "))]
